@@ -36,6 +36,46 @@ def run_harness(source, cflags=(), argv=(), timeout=60, stdin=None):
         shutil.rmtree(d, ignore_errors=True)
 
 
+class Harness:
+    """compile once, run many times:  with Harness(source, flags) as h:  h.run(argv)"""
+
+    def __init__(self, source, cflags=()):
+        self.source, self.cflags = source, list(cflags)
+        self.dir = None
+        self.build = None
+
+    def __enter__(self):
+        self.dir = tempfile.mkdtemp(prefix="verif-cvc-")
+        src = os.path.join(self.dir, "harness.c")
+        with open(src, "w") as f:
+            f.write(self.source)
+        self.exe = os.path.join(self.dir, "harness")
+        cmd = ["clang"] + SAN + self.cflags + [src, "-o", self.exe]
+        self.cmd = " ".join(cmd).replace(self.dir, "<tmp>")
+        b = subprocess.run(cmd, capture_output=True, text=True, timeout=300)
+        self.build = None if b.returncode == 0 else b.stderr[-3000:]
+        return self
+
+    def __exit__(self, *a):
+        shutil.rmtree(self.dir, ignore_errors=True)
+
+    def run(self, argv=(), timeout=60, stdin=None):
+        if self.build is not None:
+            return {"rc": None, "build_error": self.build, "cmd": self.cmd}
+        env = dict(os.environ, ASAN_OPTIONS="detect_leaks=0:abort_on_error=0:detect_stack_use_after_return=0",
+                   UBSAN_OPTIONS="print_stacktrace=0:halt_on_error=1")
+        try:
+            r = subprocess.run([self.exe] + [str(a) for a in argv], capture_output=True, text=True, timeout=timeout, env=env, input=stdin)
+        except subprocess.TimeoutExpired:
+            return {"rc": "timeout", "stdout": "", "stderr": "", "sanitizer": None, "cmd": self.cmd}
+        san = None
+        m = re.search(r"(AddressSanitizer: [^\n]*|runtime error: [^\n]*)", r.stderr)
+        if m:
+            san = m.group(1).replace(self.dir, "<tmp>")
+        return {"rc": r.returncode, "stdout": r.stdout, "stderr": r.stderr[-3000:].replace(self.dir, "<tmp>"), "sanitizer": san,
+                "cmd": self.cmd}
+
+
 def host_flags():
     return ["-I", frontend.repo("src/shared/libosmocore/include"), "-I", os.path.join(frontend.SHIM, "host", "a", "b")]
 
